@@ -2,6 +2,7 @@ import Std.Data.HashMap
 import Driver.Common
 import Driver.OpsBatch
 import Driver.OpsBits
+import Driver.OpsCli
 import Driver.OpsCode
 import Driver.OpsDeform
 import Driver.OpsGui
@@ -14,7 +15,7 @@ open Panqec
     (`none` = not my op); the first that answers wins. -/
 
 def handlers : List (List String → Option String) :=
-  [Drv.handleBatch, Drv.handleBits, Drv.handleCode, Drv.handleDeform, Drv.handleGui, Drv.handleMask, Drv.handleNoise]
+  [Drv.handleBatch, Drv.handleBits, Drv.handleCli, Drv.handleCode, Drv.handleDeform, Drv.handleGui, Drv.handleMask, Drv.handleNoise]
 
 def handleToks (toks : List String) : String :=
   match handlers.findSome? (fun h => h toks) with
